@@ -48,7 +48,7 @@ CHECKS["C14"] = (
     "DESIGN.md section 4, C14",
 )
 CHECKS["C15"] = (
-    "path enumeration + propositional decision over the wrap condition, None-check discipline rule, purity rule",
+    "abstract interpretation of expand_saved_queries over virtual saved-query pages (text scenarios, exhaustive over the printable characters of a reference name, reads in the effect trace), None-check path rule at the callers, no-memoisation rule",
     "Decides: (R1) on every path that returns a saved clause or substitutes it for {name}, the text is parenthesised unless the path "
     "excludes a '|' in it, for every valuation of the other branch atoms; (R2) every result of the two expansion functions is tested for "
     "None before any use and the None branch ends in an error; (R3) nested names are expanded through the same function; (R4) the clause is "
@@ -58,7 +58,7 @@ CHECKS["C15"] = (
     "DESIGN.md section 4, C15",
 )
 CHECKS["C16"] = (
-    "path enumeration with truth-table (decision) evaluation over exists/overwrite atoms, must-pass-through and who-may-call rules",
+    "path enumeration with truth-table (decision) evaluation over exists/overwrite atoms (no-clobber, all valuations), abstract interpretation of init_from_template with opaque patterns and a recorded renderer (first match wins, no match no write), who-may-call rule",
     "Decides: (R1) for every path of init_from_template that reaches a write of the target there is no valuation of the branch atoms with "
     "exists(target)=T and overwrite=F (local boolean definitions are expanded, unknown atoms are free), and the tested path is the written "
     "path; (R2) patterns are tried in configuration order and the loop leaves at the first match; (R3) every writing path matched a pattern "
@@ -101,7 +101,7 @@ CHECKS["C09"] = (
     "DESIGN.md section 4, C09",
 )
 CHECKS["C10"] = (
-    "path-sensitive conservation rule on the line splice, locator-shape rule, table agreement with enum and grammar, effect/path order rules",
+    "abstract interpretation of _move_note end to end over virtual page layouts (conservation, locator, write order, failure modes, hidden-metadata splice), table agreement of tag sigils with the grammar, effect rule on the two file operations",
     "Decides: in lines[:s] + note + lines[e:] every path has e == s or (e == s+1 and lines[s] shown blank on that path) (R1); the predicate locating the source line pins the ZID "
     "to the own-ZID position and never uses substring containment (R2); item-prefix tuples equal NoteType values + ' ' and the tag sigils of the hidden-metadata helpers agree "
     "with each other and with the grammar's token literals, all four kinds plus properties covered (R3); add precedes delete, failures give a non-zero status, both file operations "
